@@ -138,19 +138,52 @@ Proof.
   destruct (N.eqb author me); rewrite <- Hg; destruct (can r me _ _ _); try reflexivity; discriminate.
 Qed.
 
-Theorem deletion_entitled defs me now ns es :
-  validate_deletion me now (build_rooms defs) ns es = VOk ->
+Theorem deletion_entitled defs me now ns es upd :
+  validate_deletion me now (build_rooms defs) ns es upd = VOk ->
   forallb (fun n => del_entitled defs me now (dn_kind n) (dn_ent n) (dn_room n) (dn_author n) (dn_date n)) ns = true /\
-  forallb (fun n => del_entitled defs me now (de_kind n) (de_ent n) (de_room n) (de_author n) (de_date n)) es = true.
+  forallb (fun n => del_entitled defs me now (de_kind n) (de_ent n) (de_room n) (de_author n) (de_date n)) es = true /\
+  forallb (upd_entitled defs me now) upd = true.
 Proof.
   unfold validate_deletion. intros Hv.
-  destruct (validate_dnodes me now (build_rooms defs) ns) eqn:Hn; try discriminate. split.
-  - clear Hv. induction ns as [|n tl IH]; simpl in *; [reflexivity|].
+  destruct (validate_dnodes me now (build_rooms defs) ns) eqn:Hn; try discriminate.
+  destruct (validate_dupd me now (build_rooms defs) upd) eqn:Hu; try discriminate.
+  split; [|split].
+  - clear Hv Hu. induction ns as [|n tl IH]; simpl in *; [reflexivity|].
     destruct (check_del _ _ _ _ _ _ _ _) eqn:Hc; try discriminate.
     rewrite (check_del_entitled _ _ _ _ _ _ _ _ Hc). simpl. auto.
-  - clear Hn. induction es as [|n tl IH]; simpl in *; [reflexivity|].
+  - clear Hn Hu. induction es as [|n tl IH]; simpl in *; [reflexivity|].
     destruct (check_del _ _ _ _ _ _ _ _) eqn:Hc; try discriminate.
     rewrite (check_del_entitled _ _ _ _ _ _ _ _ Hc). simpl. auto.
+  - clear Hv Hn. induction upd as [|n tl IH]; simpl in *; [reflexivity|].
+    destruct (check_del _ _ _ _ _ _ _ _) eqn:Hc; try discriminate.
+    unfold upd_entitled at 1. rewrite (check_del_entitled _ _ _ _ _ _ _ _ Hc). simpl. auto.
+Qed.
+
+(* the whole-case statement the harness relies on: whenever the model accepts, the oracle holds *)
+Definition wf_case (c : c01case) : bool :=
+  match c with
+  | CMatrix _ _ => true
+  | CMut _ _ ms => forallb wf_tree ms
+  | CDel _ _ _ _ _ _ => true
+  | CE2E (CMut _ _ ms) => forallb wf_tree ms
+  | CE2E (CDel _ _ _ _ _ _) => true
+  | CE2E _ => false
+  end.
+
+Theorem model_accepts_only_entitled c :
+  wf_case c = true ->
+  match c with CMatrix _ _ => True | _ => spec_C01 c (run_C01 c) = true end.
+Proof.
+  destruct c as [evs probes|defs me ms|defs me now ns es upd|inner]; intros Hwf; try exact I.
+  - simpl in *. destruct (validate_all me (build_rooms defs) ms) eqn:Hv; simpl; try reflexivity.
+    apply mutation_entitled; assumption.
+  - simpl. destruct (validate_deletion me now (build_rooms defs) ns es upd) eqn:Hv; simpl; try reflexivity.
+    destruct (deletion_entitled _ _ _ _ _ _ Hv) as (H1 & H2 & H3). rewrite H1, H2, H3. reflexivity.
+  - destruct inner as [evs probes|defs me ms|defs me now ns es upd|inner']; simpl in *; try discriminate.
+    + destruct (validate_all me (build_rooms defs) ms) eqn:Hv; simpl; try reflexivity.
+      apply mutation_entitled; assumption.
+    + destruct (validate_deletion me now (build_rooms defs) ns es upd) eqn:Hv; simpl; try reflexivity.
+      destruct (deletion_entitled _ _ _ _ _ _ Hv) as (H1 & H2 & H3). rewrite H1, H2, H3. reflexivity.
 Qed.
 
 (* the decisions of the real Room structure are the granted ones (matrix cases) *)
